@@ -388,14 +388,57 @@ async def tee_peer(
                             peer_buffer.append(item)
             yield buffer.popleft()
     finally:
-        # this peer is done – remove its buffer
-        for idx, peer_buffer in enumerate(peers):  # pragma: no branch
-            if peer_buffer is buffer:
-                peers.pop(idx)
-                break
-        # if we are the last peer, try and close the iterator
-        if not peers and isinstance(iterator, ACloseable):
-            await iterator.aclose()
+        await tee_peer_done(iterator, buffer, peers)
+
+
+async def tee_peer_done(
+    iterator: AsyncIterator[T], buffer: Deque[T], peers: List[Deque[T]]
+) -> None:
+    """Unregister the ``buffer`` of a finished :py:func:`~.tee` peer"""
+    # this peer is done – remove its buffer
+    for idx, peer_buffer in enumerate(peers):
+        if peer_buffer is buffer:
+            peers.pop(idx)
+            break
+    else:
+        return
+    # if we are the last peer, try and close the iterator
+    if not peers and isinstance(iterator, ACloseable):
+        await iterator.aclose()
+
+
+class TeePeer(AsyncIterator[T]):
+    """
+    Child iterator of a :py:func:`~.tee`
+
+    An async generator that was never advanced skips its cleanup on ``aclose``.
+    This wrapper makes sure a peer closed early still stops buffering items.
+    """
+
+    __slots__ = ("_peer", "_cleanup_args")
+
+    def __init__(
+        self,
+        iterator: AsyncIterator[T],
+        buffer: Deque[T],
+        peers: List[Deque[T]],
+        lock: AsyncContextManager[Any],
+    ):
+        self._peer = tee_peer(iterator, buffer, peers, lock)
+        # only needed (and only kept) until the peer is first advanced
+        self._cleanup_args: Optional[
+            Tuple[AsyncIterator[T], Deque[T], List[Deque[T]]]
+        ] = (iterator, buffer, peers)
+
+    def __anext__(self) -> Awaitable[T]:
+        self._cleanup_args = None
+        return self._peer.__anext__()
+
+    async def aclose(self) -> None:
+        if self._cleanup_args is not None:
+            cleanup_args, self._cleanup_args = self._cleanup_args, None
+            await tee_peer_done(*cleanup_args)
+        await self._peer.aclose()
 
 
 @public_module(__name__, "tee")
@@ -449,7 +492,7 @@ class Tee(Generic[T]):
         self._iterator = aiter(iterable)
         self._buffers: List[Deque[T]] = [deque() for _ in range(n)]
         self._children = tuple(
-            tee_peer(
+            TeePeer(
                 iterator=self._iterator,
                 buffer=buffer,
                 peers=self._buffers,
